@@ -22,6 +22,31 @@ ORD = 0.25
 
 
 def build(seq, base, slens):
+    if isinstance(base, tuple):
+        # ("end", E): the tier is laid out from its END backwards, so that boundaries lie a sliver BELOW the whole number E
+        lens = []
+        si = 0
+        for k in seq:
+            if k in "LG":
+                lens.append(ORD)
+            else:
+                lens.append(slens[si])
+                si += 1
+        bounds = [base[1]]
+        for ln in reversed(lens):
+            bounds.append(bounds[-1] - ln)
+        bounds.reverse()
+        ents, segs = [], []
+        li = 0
+        for i, k in enumerate(seq):
+            s, e = bounds[i], bounds[i + 1]
+            lab = None
+            if k in "Ll":
+                lab = ("L%d" if k == "L" else "s%d") % li
+                li += 1
+                ents.append((s, e, lab))
+            segs.append((k, s, e, lab))
+        return ents, segs, bounds[0], bounds[-1]
     t = base
     ents, segs = [], []
     si = li = 0
@@ -245,6 +270,12 @@ def gen(quick):
                         yield (seqs, slens, base, 0.06)
                         if not quick:
                             yield (seqs, slens, base, None)
+            # laid out backwards from a whole number: boundaries a sliver BELOW 1, 100 and 4096 (numbers that are nearly but not quite integral)
+            if ns and n <= (3 if quick else 4):
+                for base in (("end", 1.0), ("end", 100.0), ("end", 4096.0)):
+                    for slens in itertools.product((1e-12, 9.9e-9, 1.1e-8) if ns == 1 else (1e-12, 1.1e-8), repeat=ns):
+                        for thr in (None, 1e-8):
+                            yield (seqs, slens, base, thr)
 
 
 def _snippet(case):
@@ -261,7 +292,7 @@ def parts(tier):
     return [InputPart(
         "slivers", lambda: gen(quick), check,
         rule="all segment sequences over {ordinary labelled, ordinary gap, labelled sliver, gap sliver} of length <=%d with at least "
-             "one ordinary segment and <=3 slivers x sliver lengths x base times {0,0.3,1} x thresholds {None,1e-8,0.06}; each case "
+             "one ordinary segment and <=3 slivers x sliver lengths x base times {0,0.3,1} (and, laid out backwards from their end, tiers ending at 1, 100, 4096 so that boundaries lie a sliver below a whole number) x thresholds {None,1e-8,0.06}; each case "
              "runs 13 span overrides (none, equal, below/above/both by 1 s, just below/above by a sliver, inside an unlabelled leading/trailing stretch, inside the data) x includeBlankSpaces x formats (all 4 for 'none'/'both', short + textgrid_json otherwise), on a textgrid with two identical interval tiers and a point tier; non-trivial = distinct (sequence, threshold, exact sliver "
              "classification)" % (4 if quick else 5),
         bounds={"max_segments": 4 if quick else 5, "sliver_lengths": list((1e-12, 9.9e-9, 1e-8, 1.1e-8) if quick else D.SLV)},
